@@ -61,6 +61,7 @@ class Path:
         self.alloc = 0
         self.alloc_base = z3.Int("alloc0")   # allocation frontier = alloc_base + alloc
         self.tags = []       # free-form notes (which branch etc.)
+        self.branch_ids = set()   # ids of path-condition entries that are branch decisions (the rest are facts)
 
     def fork(self):
         q = Path()
@@ -73,6 +74,7 @@ class Path:
         q.alloc = self.alloc
         q.alloc_base = self.alloc_base
         q.tags = list(self.tags)
+        q.branch_ids = set(self.branch_ids)
         return q
 
     @property
@@ -83,9 +85,11 @@ class Path:
     def frontier(self):
         return self.alloc_base + self.alloc
 
-    def assume(self, c):
+    def assume(self, c, branch=False):
         if z3.is_true(c):
             return
+        if branch:
+            self.branch_ids.add(c.get_id())
         for h in self.pc[-40:]:
             if h.eq(c):
                 return
@@ -218,14 +222,14 @@ class Exec:
         f_ok = self.feasible(p, z3.Not(c))
         if t_ok and f_ok:
             q = p.fork()
-            p.assume(c)
-            q.assume(z3.Not(c))
+            p.assume(c, True)
+            q.assume(z3.Not(c), True)
             return [(p, True), (q, False)]
         if t_ok:
-            p.assume(c)
+            p.assume(c, True)
             return [(p, True)]
         if f_ok:
-            p.assume(z3.Not(c))
+            p.assume(z3.Not(c), True)
             return [(p, False)]
         return out
 
@@ -719,25 +723,25 @@ class Exec:
             return
         for rec, mk in cands:
             q = p.fork()
-            q.assume(rec)
+            q.assume(rec, True)
             yield q, mk(t)
         if obj_ok:
             for cname, cid in list(V.CLASSES.ids.items()):
                 c = z3.And(Val.is_VObj(t), Val.cls(t) == cid)
                 if self.feasible(p, c):
                     q = p.fork()
-                    q.assume(c)
+                    q.assume(c, True)
                     yield q, VObj(Val.ref(t), cname)
         if enum_ok:
             for ename, eid in list(V.ENUMS.ids.items()):
                 c = z3.And(Val.is_VEnum(t), Val.en(t) == eid)
                 if self.feasible(p, c):
                     q = p.fork()
-                    q.assume(c)
+                    q.assume(c, True)
                     yield q, VEnum(ename, Val.em(t))
         if cls_ok:
             q = p.fork()
-            q.assume(Val.is_VClass(t))
+            q.assume(Val.is_VClass(t), True)
             yield q, VOpaque(Val.cid(t), "classobj")
 
     # ------------------------------------------------------------------
@@ -906,6 +910,8 @@ class Exec:
             return VDyn(box(v))
         if isinstance(sort, (Func, Cls)):
             return v
+        if isinstance(sort, OpaqueOf) and isinstance(v, VOpaque):
+            return VOpaque(v.t, sort.tag or v.tag)
         if sort is Bool and not isinstance(v, (VBool, VDyn)) and what == "result" and \
                 self.current_contract is not None and "truthy_result" in self.current_contract.note:
             return VBool(self.truth(p, v))     # result used for its truth value only (documented abstraction)
@@ -994,7 +1000,7 @@ class Exec:
             conds.append(cond)
             if self.feasible(p, cond):
                 q = p.fork()
-                q.assume(cond)
+                q.assume(cond, True)
                 if c.raise_dirty:
                     self.havoc(q, c.modifies, env)
                 self._raises.append((q, VExc(ecls.split("#")[0], (), getattr(node, "lineno", None))))
@@ -1002,7 +1008,7 @@ class Exec:
             nc = z3.Not(z3.Or(*conds))
             if not self.feasible(p, nc):
                 return
-            p.assume(nc)
+            p.assume(nc, True)
         # normal exit
         oldp = p.fork()
         self._advance = False
